@@ -384,6 +384,7 @@ namespace
     bool touch = false;	// whether to run the intact check after this step
 
     fs_arm_io (s.io);
+    alarm ((unsigned) st.p.knob ("watchdog_s", 10));	// the watchdog is per step
 
     if (op == "PARSE")
       {
